@@ -391,6 +391,8 @@ class XBuffer(ABC):
         default_alignment=None,
         grow_step=None,
     ):
+        if grow_step is not None and grow_step <= 0:
+            raise ValueError(f"grow_step must be positive, not {grow_step}")
         if context is None:
             self.context = self._make_context()
         else:
